@@ -858,11 +858,14 @@ func cancelFinalizers(c *core.Ctx) {
 	}
 }
 
-// holdsReceiver: the method cannot outlive its receiver's reachability: it
-// makes no call at all (nothing to wait for), or a deferred call refers to the
-// receiver (receiver itself, the address of one of its fields, or
-// runtime.KeepAlive(receiver)), or every path to a return passes
-// runtime.KeepAlive(receiver) after the last other call.
+// holdsReceiver: the receiver stays reachable for as long as the method can
+// wait. A call keeps the receiver reachable on its own if it is handed the
+// receiver or the address of one of its fields (s.mu.Lock(), the callee holds
+// the pointer); a call that only gets values loaded OUT of the receiver (the
+// embedded stream, a channel, a context) does not — the receiver then has to be
+// referred to again later on every path to the return (a later field access, a
+// runtime.KeepAlive), or by a deferred call (its operands live in the frame
+// until the method returns).
 func holdsReceiver(m *ssa.Function) bool {
 	recv := m.Params[0]
 	derives := func(v ssa.Value) bool {
@@ -873,8 +876,6 @@ func holdsReceiver(m *ssa.Function) bool {
 			}
 			switch x := v.(type) {
 			case *ssa.FieldAddr:
-				v = x.X
-			case *ssa.MakeInterface:
 				v = x.X
 			case *ssa.UnOp:
 				// *(&recv) spill cell
@@ -892,70 +893,71 @@ func holdsReceiver(m *ssa.Function) bool {
 		}
 		return false
 	}
-	anyCall := false
-	deferred := false
-	var keepAlives []ssa.Instruction
-	core.Instrs(m, func(in ssa.Instruction) {
-		cc := core.CallOf(in)
-		if cc == nil {
-			if _, isSel := in.(*ssa.Select); isSel {
-				anyCall = true
-			}
-			if u, isU := in.(*ssa.UnOp); isU && u.Op == token.ARROW {
-				anyCall = true
-			}
-			return
+	operandDerives := func(cc *ssa.CallCommon) bool {
+		if cc.Value != nil && derives(cc.Value) {
+			return true
 		}
-		isKA := core.InfoOf(cc).Is("runtime.KeepAlive") && len(cc.Args) == 1 && derives(cc.Args[0])
-		if d, isD := in.(*ssa.Defer); isD {
-			if isKA {
-				deferred = true
-				return
+		for _, a := range cc.Args {
+			if derives(a) {
+				return true
 			}
-			vals := append([]ssa.Value{d.Call.Value}, d.Call.Args...)
-			for _, v := range vals {
-				if v != nil && derives(v) {
-					deferred = true
+		}
+		if mc, isMC := core.Strip(cc.Value).(*ssa.MakeClosure); isMC {
+			for _, b := range mc.Bindings {
+				if derives(b) {
+					return true
 				}
 			}
-			if mc, isMC := core.Strip(d.Call.Value).(*ssa.MakeClosure); isMC {
-				for _, b := range mc.Bindings {
-					if derives(b) {
-						deferred = true
-					}
-				}
-			}
-			return
 		}
-		if isKA {
-			keepAlives = append(keepAlives, in)
-			return
-		}
-		anyCall = true
-	})
-	if !anyCall || deferred {
-		return true
-	}
-	if len(keepAlives) == 0 {
 		return false
 	}
-	isKAi := func(in ssa.Instruction) bool {
-		for _, k := range keepAlives {
-			if k == in {
+	// a deferred call that refers to the receiver covers the whole method
+	deferred := false
+	core.Instrs(m, func(in ssa.Instruction) {
+		if d, isD := in.(*ssa.Defer); isD && operandDerives(&d.Call) {
+			deferred = true
+		}
+	})
+	if deferred {
+		return true
+	}
+	// an instruction that refers to the receiver
+	uses := func(in ssa.Instruction) bool {
+		if cc := core.CallOf(in); cc != nil {
+			return operandDerives(cc)
+		}
+		var ops []*ssa.Value
+		for _, op := range in.Operands(ops) {
+			if op != nil && *op != nil && derives(*op) {
 				return true
 			}
 		}
 		return false
 	}
-	// after every other call, each path to a return passes a KeepAlive
 	ok := true
 	core.Instrs(m, func(in ssa.Instruction) {
-		cc := core.CallOf(in)
-		if cc == nil || isKAi(in) {
+		waits := false
+		if cc := core.CallOf(in); cc != nil {
+			if _, isCall := in.(*ssa.Call); isCall && !operandDerives(cc) {
+				if _, isB := cc.Value.(*ssa.Builtin); !isB {
+					waits = true
+				}
+			}
+		}
+		if _, isSel := in.(*ssa.Select); isSel {
+			waits = true
+		}
+		if u, isU := in.(*ssa.UnOp); isU && u.Op == token.ARROW {
+			waits = true
+		}
+		if _, isSend := in.(*ssa.Send); isSend {
+			waits = true
+		}
+		if !waits {
 			return
 		}
 		for _, r := range core.Returns(m) {
-			if !core.MustPass(core.After(in), r, isKAi) {
+			if !core.MustPass(core.After(in), r, uses) {
 				ok = false
 			}
 		}
